@@ -23,7 +23,10 @@ use std::collections::BTreeMap;
 use std::path::{Path, PathBuf};
 use std::time::{Duration, Instant};
 
-pub const VERIF_DIR: &str = "/verif";
+/// directory holding known_findings.json, evidence/ and replays/ (set by ./check)
+pub fn verif_dir() -> String {
+    std::env::var("VERIF_DIR").unwrap_or_else(|_| "/verif".to_string())
+}
 
 fn usage() -> ! {
     eprintln!("usage: rws-sim check <Cxx> [--tier quick|thorough] [--seed N] [--workers W] [--budget SECONDS]");
